@@ -148,6 +148,12 @@ def classes_of_term(world: World, table: ClassTable, module, t) -> list[ClassInf
         return None
     q = world.qualify(module, name)
     k = table.find(q) if q else None
+    if k is None and '.' not in name:
+        # a term does not remember the module it was written in (inlined code keeps the names of its own module):
+        # a simple name that denotes exactly one class of the package is that class
+        hits = [c for c in table.classes.values() if c.name == name]
+        if len(hits) == 1:
+            k = hits[0]
     return [k] if k is not None else None
 
 
